@@ -52,7 +52,7 @@ RAW_ANY_TOOLS = ("islice", "batched", "pairwise", "cycle", "enumerate", "chain_f
                  "filterfalse_none", "compress")
 
 
-def iter_spec(rng: random.Random, name: str, maxlen: int = 8) -> dict:
+def _iter_spec_with_raw(rng: random.Random, name: str, maxlen: int = 8) -> dict:
     """Random valid spec for iterator tool ``name`` (a name from ITER_TOOL_NAMES)."""
     spec = _iter_spec(rng, name, maxlen)
     if name in RAW_ANY_TOOLS and not spec.get("raw") and rng.random() < 0.12:
@@ -287,7 +287,7 @@ def raw_seq(rng: random.Random, pool: list, maxlen: int = 6) -> list:
     return [rng.choice(pool) for _ in range(rng.randint(0, maxlen))]
 
 
-def agg_spec(rng: random.Random, name: str, maxlen: int = 8) -> dict:
+def _agg_spec(rng: random.Random, name: str, maxlen: int = 8) -> dict:
     cls = rng.choice(["items", "items", "items", "exact", "inexact", "unorderable", "nan", "touchy"])
     spec: dict = {"tool": name, "srcs": [], "fns": [], "params": {}}
     if name in ("min", "max", "sorted", "nlargest", "nsmallest") and rng.random() < 0.08:
@@ -454,3 +454,19 @@ def has_tie(spec: dict) -> bool:
 def shape_class(spec: dict) -> tuple:
     lens = tuple(len(s) for s in spec["srcs"])
     return (len(lens), min(lens) if lens else 0, max(lens) if lens else 0, len(set(lens)) > 1)
+
+
+def _same_objects(rng: random.Random, spec: dict) -> dict:
+    # in some inputs every occurrence of a key is the very same OBJECT (a repeated sentinel, one record listed twice):
+    # each occurrence is an item like any other
+    if not spec.get("raw") and spec["tool"] not in ("starmap", "dict") and rng.random() < 0.12:
+        spec["same_objects"] = True
+    return spec
+
+
+def agg_spec(rng: random.Random, name: str, maxlen: int = 8) -> dict:
+    return _same_objects(rng, _agg_spec(rng, name, maxlen))
+
+
+def iter_spec(rng: random.Random, name: str, maxlen: int = 8) -> dict:
+    return _same_objects(rng, _iter_spec_with_raw(rng, name, maxlen))
